@@ -59,10 +59,13 @@ def theorem_names(module):
     return [prefix + m for m in re.findall(r"^theorem\s+(\S+)", text, flags=re.M)]
 
 
-def audit(module):
-    """#print axioms for every property theorem; returns {theorem: [axioms] | None(error)}"""
+def audit(module, extra=()):
+    """#print axioms for every property theorem; returns {theorem: [axioms] | None(error)}.  `extra`: further modules whose
+    theorems belong to the property (kept in a file of their own for import reasons)"""
     names = theorem_names(module)
-    src = f"import {module}\n" + "\n".join(f"#print axioms {n}" for n in names) + "\n"
+    for m in extra:
+        names += theorem_names(m)
+    src = "".join(f"import {m}\n" for m in (module, *extra)) + "\n".join(f"#print axioms {n}" for n in names) + "\n"
     with tempfile.NamedTemporaryFile("w", suffix=".lean", dir=os.path.join(LEAN, ".lake"), delete=False) as f:
         f.write(src)
         tmp = f.name
@@ -139,7 +142,7 @@ def prepare(prop, tier="quick"):
                 return info, None
         bad = hygiene()
         info["hygiene"] = bad
-        res, raw = audit(prop.LEAN_MODULE)
+        res, raw = audit(prop.LEAN_MODULE, tuple(getattr(prop, "EXTRA_TARGETS", [])))
         info["axioms"] = res
         info["obligations"] = len(res)
         ok = [n for n, ax in res.items() if ax is not None and set(ax) <= ALLOWED_AXIOMS]
